@@ -95,7 +95,7 @@ def _ops(n_p, sched='round_robin'):
     remove = st.tuples(st.just('remove'),
                        st.lists(pidx, min_size=1, max_size=2, unique=True))
     pstate = st.tuples(st.just('pstate'), pidx,
-                       st.sampled_from([0, 1, 2, 3, 4, 4, 4, 4, 4, 4, 5, 6, 7]),
+                       st.sampled_from([0, 1, 2, 3, 3, 3, 4, 4, 4, 4, 4, 4, 5, 6, 7]),
                        st.sampled_from([0, 0, 0, 0, 0, 0, 1, 2]))
     tstate = st.tuples(st.just('tstate'),
                        st.lists(st.tuples(st.integers(0, MAX_TASKS - 1),
@@ -149,7 +149,7 @@ def histories(draw, sched):
         if sched == 'backfilling' or draw(st.booleans()):
             for i in first:
                 if draw(st.integers(0, 4)) > 0:
-                    ops.append(['pstate', i, 4, 0])
+                    ops.append(['pstate', i, draw(st.sampled_from([3, 4, 4, 4, 4, 4])), 0])
         if sched == 'backfilling' and shape >= 6:
             # pressure: more work than the high-water marks admit
             ops.append(['submit', [[-1, draw(st.integers(1, 3)), draw(st.integers(1, 2))]
@@ -167,7 +167,7 @@ def parts(tier):
 # ------------------------------------------------------------------------------
 class _Task(object):
     __slots__ = ('uid', 'named', 'cores', 'n_fw', 'pid', 'epoch', 'fdict',
-                 'done_seen', 'final_seen', 'dead')
+                 'done_seen', 'final_seen', 'dead', 'stuck')
 
     def __init__(self, uid, named, cores):
         self.uid, self.named, self.cores = uid, named, cores
@@ -178,6 +178,8 @@ class _Task(object):
         self.done_seen  = False  # a full notification beyond AGENT_EXECUTING was delivered
         self.final_seen = False
         self.dead  = False      # lost / failed: reported once
+        self.stuck = False      # waits although eligible pilot exists: reported once,
+                                # after the operation that should have bound it
 
 
 def run_case(case):             # noqa: C901
@@ -336,12 +338,16 @@ def run_case(case):             # noqa: C901
                 fail('task_lost:%s:%s' % (ctx, kind),
                      '%s neither forwarded nor held by the scheduler after %s' % (rec.uid, kind))
                 continue
+            if rec.stuck:
+                continue
             if rec.named:
                 if role.get(rec.named) == ADDED:
+                    rec.stuck = True
                     fail('named_task_waits_with_added_pilot:%s' % kind,
                          '%s waits for %s which is added' % (rec.uid, rec.named))
             elif not is_bf:
                 if any_added:
+                    rec.stuck = True
                     fail('rr_task_waits_with_added_pilot:%s' % kind, rec.uid)
             elif not tainted:
                 # (after a callback raised, the re-scheduling it skipped is a
@@ -351,6 +357,7 @@ def run_case(case):             # noqa: C901
                     if role.get(pid) == ADDED and info \
                             and w_lo <= PVAL.get(sstate.get(pid), -1) <= w_hi \
                             and info['used'] < info['hwm']:
+                        rec.stuck = True
                         fail('bf_task_waits_with_eligible_pilot:%s' % kind,
                              '%s waits, %s is added, %s, used %s < hwm %s'
                              % (rec.uid, pid, sstate.get(pid), info['used'], info['hwm']))
